@@ -19,6 +19,9 @@ Arguments be32 : simpl never.
 Arguments read_u32 : simpl never.
 Arguments slice : simpl never.
 
+(* rd_words (Walk.v) advances by 4 per key entry word, as fill_keys does in the source *)
+Lemma fill_keys_stride : ITER_FILL_JSTEP = 4. Proof. reflexivity. Qed.
+
 (* the list-level loop with early exit *)
 Fixpoint fold_exit {X St R} (step : St -> X -> res (St + R)) (fin : St -> res R) (xs : list X) (s : St) : res R :=
   match xs with
@@ -42,7 +45,7 @@ Lemma arr_fold_arr {St R} (step : St -> je -> list N -> res (St + R)) (fin : St 
   = fold_exit (fun s x => step s (ent x) (payload x)) fin todo s.
 Proof.
   intros Hl. induction todo as [|t todo IH]; intros done El fuel s Hf;
-    (destruct fuel as [|fuel]; [cbn [length] in Hf; lia|]); cbn [arr_fold fold_exit].
+    (destruct fuel as [|fuel]; [cbn [length] in Hf; lia|]); cbn [arr_fold fold_exit]; unfold ITER_ARR_JSTEP.
   - rewrite app_nil_r in El. subst done. rewrite N.leb_refl. reflexivity.
   - assert (L : lenN l <=? lenN done = false) by (apply N.leb_gt; rewrite El, lenN_app, lenN_cons; lia).
     rewrite L.
@@ -80,7 +83,7 @@ Theorem iterate_array_arr {St R} (step : St -> je -> list N -> res (St + R)) (fi
   iterate_array (payload (VArr l) ++ B) (arr_hdr l) step fin s
   = fold_exit (fun s x => step s (ent x) (payload x)) fin l s.
 Proof.
-  intros Hl Hn. unfold iterate_array. destruct (arr_hdr_facts l Hn) as (_ & _ & HL). rewrite HL.
+  intros Hl Hn. unfold iterate_array, ITER_ARR_JOFF, ITER_ARR_VOFF. destruct (arr_hdr_facts l Hn) as (_ & _ & HL). rewrite HL.
   pose proof (arr_fold_arr step fin l B Hl l [] eq_refl (S (length (payload (VArr l) ++ B))) s) as E.
   rewrite lenN_nil in E. cbn [sum_len fold_right] in E.
   replace (4 + 4 * 0) with 4 in E by lia. replace (4 * lenN l + 4 + 0) with (4 * lenN l + 4) in E by lia.
@@ -111,7 +114,7 @@ Lemma keys_fold_obj {St R} (step : St -> list N -> res (St + R)) (fin : St -> re
   = fold_exit (fun s kv => step s (fst kv)) fin todo s.
 Proof.
   intros Ho. induction todo as [|[k x] todo IH]; intros done El fuel s Hf;
-    (destruct fuel as [|fuel]; [cbn [length] in Hf; lia|]); cbn [keys_fold fold_exit fst].
+    (destruct fuel as [|fuel]; [cbn [length] in Hf; lia|]); cbn [keys_fold fold_exit fst]; unfold ITER_KEYS_JSTEP.
   - rewrite app_nil_r in El. subst done. rewrite N.leb_refl. reflexivity.
   - assert (L : lenN o <=? lenN done = false) by (apply N.leb_gt; rewrite El, lenN_app, lenN_cons; lia).
     rewrite L.
@@ -142,7 +145,7 @@ Theorem iterate_object_keys_obj {St R} (step : St -> list N -> res (St + R)) (fi
   iterate_object_keys (payload (VObj o) ++ B) (obj_hdr o) step fin s
   = fold_exit (fun s kv => step s (fst kv)) fin o s.
 Proof.
-  intros Ho Hn. unfold iterate_object_keys. destruct (obj_hdr_facts o Hn) as (_ & _ & HL). rewrite HL.
+  intros Ho Hn. unfold iterate_object_keys, ITER_KEYS_JOFF, ITER_KEYS_KOFF. destruct (obj_hdr_facts o Hn) as (_ & _ & HL). rewrite HL.
   pose proof (keys_fold_obj step fin o B Ho o [] eq_refl (S (length (payload (VObj o) ++ B))) s) as E.
   rewrite lenN_nil in E. cbn [sum_keys fold_right] in E.
   replace (4 + 4 * 0) with 4 in E by lia. replace (8 * lenN o + 4 + 0) with (8 * lenN o + 4) in E by lia.
@@ -158,7 +161,7 @@ Lemma ent_loop_obj {St R} (step : St -> list N -> je -> list N -> res (St + R)) 
            (4 + lenN o * 8 + sum_keys o + sum_len (vals done)) s
   = fold_exit (fun s kv => step s (fst kv) (ent (snd kv)) (payload (snd kv))) fin todo s.
 Proof.
-  intros Ho. induction todo as [|[k x] todo IH]; intros done El s; cbn [kws map ent_loop fold_exit fst snd]; [reflexivity|].
+  intros Ho. induction todo as [|[k x] todo IH]; intros done El s; cbn [kws map ent_loop fold_exit fst snd]; [reflexivity|]. unfold ITER_ENT_JSTEP.
   fold (kws todo).
   assert (Hkx : wf_size x = true /\ lenN k < 268435456).
   { unfold obj_ok in Ho. rewrite El in Ho. apply Forall_app in Ho. destruct Ho as [_ Ho]. inversion Ho as [|? ? H _]. exact H. }
@@ -194,7 +197,7 @@ Theorem iterate_object_entries_obj {St R} (step : St -> list N -> je -> list N -
   iterate_object_entries (payload (VObj o) ++ B) (obj_hdr o) step fin s
   = fold_exit (fun s kv => step s (fst kv) (ent (snd kv)) (payload (snd kv))) fin o s.
 Proof.
-  intros Ho Hn. unfold iterate_object_entries. destruct (obj_hdr_facts o Hn) as (_ & _ & HL). rewrite HL.
+  intros Ho Hn. unfold iterate_object_entries, ITER_ENT_JOFF, ITER_ENT_KOFF, ITER_ENT_VOFF, ITER_FILL_JSTEP. destruct (obj_hdr_facts o Hn) as (_ & _ & HL). rewrite HL.
   pose proof (rd_key_words [] o B (S (length (payload (VObj o) ++ B))) Ho) as RK. cbn [app] in RK. change (lenN (@nil N) + 4) with 4 in RK.
   rewrite RK.
   2:{ rewrite payload_obj, !app_length, be32_len, length_flat_words, app_length. unfold kws. rewrite map_length. lia. }
